@@ -1,8 +1,12 @@
-(* Property C19: black-box (amplitude amplification) preparation.  PARTIAL: the 2-D recurrence of the rounds and the
-   flag amplitudes of the oracle are theorems; the reduction of the n-qubit circuit to the 2-D recurrence (U I_s U^dagger is
-   the reflection about U|0>) is evaluated; the number of rounds and the oracle angles are tied by correspondence/monitors. *)
+(* Property C19: black-box (amplitude amplification) preparation.  The gate list of the model (BlackBox.bb_circuit: the oracle
+   U = H^n ; UCRY ; UCRZ, r rounds of I_t ; U^-1 ; I_s ; U) is proved end to end, for every n, every r and every pair of angle
+   tables: from |0..0>, times the global phase (-1)^r, the flag = 0 branch is sin((2r+1)t) a_k with a_k = cos(th_k/2) e^{-i ph_k/2}
+   (C19_flag0_branch, C19_flag0_branch_asin), the flag = 1 branch carries cos((2r+1)t) b_k / sqrt(2^n - 1) (C19_flag1_branch).
+   The number of rounds and the angle tables are tied to /repo by the correspondence and the angle contract. *)
 From Coq Require Import Reals Lra.
-From QV Require Import Grover.
+From Coq Require Import NArith List.
+From Coquelicot Require Import Complex.
+From QV Require Import Sem Grover BlackBox.
 Open Scope R_scope.
 
 (* after j rounds the (good, bad) coordinates are (-1)^j (sin((2j+1)t), cos((2j+1)t)): with the circuit's global phase pi
@@ -21,3 +25,52 @@ Print Assumptions C19_oracle_flag.
 
 Example ex_hyp : 0 <= 1 <= 1 /\ 0 <= 0 <= 1.
 Proof. lra. Qed.
+
+(* ---------- the circuit, end to end (assignment semantics: qubit 0 = flag, qubits 1..n = data, little endian) ---------- *)
+(* the state stays in the plane spanned by G (flag 0: the amplitudes a_k) and B (flag 1: the complementary amplitudes b_k) *)
+Theorem C19_circuit_state : forall (n : nat) (th ph : nat -> R),
+  bigsum (fun k => RtoC (cos (th k / 2) * cos (th k / 2))) (2 ^ n) = 1 ->
+  forall r, brun n th ph (bb_circuit n r) e0 = comb n th ph (RtoC (fst (xy n r))) (RtoC (snd (xy n r))).
+Proof. exact circuit_state. Qed.
+Print Assumptions C19_circuit_state.
+
+Theorem C19_flag0_branch : forall (n : nat) (th ph : nat -> R),
+  bigsum (fun k => RtoC (cos (th k / 2) * cos (th k / 2))) (2 ^ n) = 1 ->
+  forall t sq : R, sin t = sn n -> cos t = sn n * sq -> sq * sq = 2 ^ n - 1 ->
+  forall (r : nat) (b : asg), get b 0 = false ->
+  (RtoC (sgn r) * brun n th ph (bb_circuit n r) e0 b = RtoC (sin ((2 * INR r + 1) * t)) * (indh n b * ak th ph (cidx n b)))%C.
+Proof. exact flag0_branch. Qed.
+Print Assumptions C19_flag0_branch.
+
+(* with the angle of the property, theta = asin(1/sqrt(N)), N = 2^n: no side conditions left but the normalisation *)
+Theorem C19_flag0_branch_asin : forall (n : nat) (th ph : nat -> R) (r : nat) (b : asg),
+  bigsum (fun k => RtoC (cos (th k / 2) * cos (th k / 2))) (2 ^ n) = 1 ->
+  get b 0 = false ->
+  (RtoC (sgn r) * brun n th ph (bb_circuit n r) e0 b
+   = RtoC (sin ((2 * INR r + 1) * asin (/ sqrt (2 ^ n)))) * (indh n b * ak th ph (cidx n b)))%C.
+Proof. exact flag0_branch_asin. Qed.
+Print Assumptions C19_flag0_branch_asin.
+
+Theorem C19_flag1_branch : forall (n : nat) (th ph : nat -> R),
+  bigsum (fun k => RtoC (cos (th k / 2) * cos (th k / 2))) (2 ^ n) = 1 ->
+  forall t sq : R, sin t = sn n -> cos t = sn n * sq -> sq * sq = 2 ^ n - 1 ->
+  forall (r : nat) (b : asg), get b 0 = true ->
+  (RtoC sq * (RtoC (sgn r) * brun n th ph (bb_circuit n r) e0 b)
+   = RtoC (cos ((2 * INR r + 1) * t)) * (indh n b * bk th ph (cidx n b)))%C.
+Proof. exact flag1_branch. Qed.
+Print Assumptions C19_flag1_branch.
+
+(* the premise is the normalisation of the vector: |a_k|^2 = cos^2(th_k/2) *)
+Theorem C19_amp_norm : forall (th ph : nat -> R) (k : nat),
+  (ak th ph k * Cconj (ak th ph k))%C = RtoC (cos (th k / 2) * cos (th k / 2)).
+Proof. exact ak_norm. Qed.
+Print Assumptions C19_amp_norm.
+
+(* the premises are satisfiable: one data qubit, the uniform vector (th = pi/2 twice) *)
+Example ex_norm : bigsum (fun k => RtoC (cos ((fun _ => PI / 2) k / 2) * cos ((fun _ => PI / 2) k / 2))) (2 ^ 1) = 1.
+Proof.
+  cbn [Nat.pow Nat.mul Nat.add bigsum]. replace (PI / 2 / 2) with (PI / 4) by field. rewrite cos_PI4.
+  assert (E : 1 / sqrt 2 * (1 / sqrt 2) = / 2).
+  { unfold Rdiv. rewrite !Rmult_1_l. rewrite <- Rinv_mult, sqrt_sqrt by lra. reflexivity. }
+  rewrite E. apply injective_projections; cbn [fst snd Cplus RtoC]; field.
+Qed.
